@@ -5,6 +5,7 @@ import (
 	"fmt"
 	"strings"
 	"testing"
+	"time"
 
 	"pgregory.net/rapid"
 
@@ -52,7 +53,27 @@ func runOne(srvs []*proj.Server, pr *kit.Prepared, c kit.Case, p *plan.Plan, npa
 	for _, s := range srvs {
 		kit.Journal(map[string]any{"case": c, "fault": what, "vector": s.P.Vec})
 		e := univ.NewExec(p)
-		resp := s.Do(context.Background(), e, c.Query, c.OpName, c.Variables)
+		ctx, cancel := context.WithCancel(context.Background())
+		done := make(chan *proj.Response, 1)
+		go func() { done <- s.Do(ctx, e, c.Query, c.OpName, c.Variables) }()
+		var resp *proj.Response
+		select {
+		case resp = <-done:
+			cancel()
+		case <-time.After(20 * time.Second):
+			// every universal resolver returns within milliseconds: an operation that is still not
+			// answered has been wedged by the fault (a failure that is not contained)
+			inflight := e.Inflight()
+			cancel()
+			select {
+			case <-done:
+			case <-time.After(5 * time.Second):
+			}
+			if inflight > 0 {
+				return vfrun.Failf("harness.inconclusive", "[%s %s] a universal resolver is still running after 20s", s.P.Vec, what)
+			}
+			return vfrun.Failf("contain.operation-hangs-after-fault", "[%s %s] every resolver has returned but the operation is not answered after 20s (it ends only when its context is cancelled)", s.P.Vec, what)
+		}
 		if e.Unrepresentable > 0 {
 			vfrun.Label("discarded:unrepresentable")
 			continue
